@@ -470,6 +470,8 @@ def fix_required(case):
                 w[:] = ['args', []]
             if w[0] in ('call', 'bind'):
                 state = 'fn'
+            elif w[0] == 'delargs' and not w[1]:
+                state = 'none'      # ('!del {}' removes the key, a function node included - R44)
             elif w[0] in ('args', 'arglist', 'delargs', 'name'):
                 state = 'fn' if state == 'fn' else 'other'
             else:
